@@ -11,7 +11,9 @@ RULE = ("bounded-exhaustive: every scalar of S(bits) for bits in {64,128,256,512
         "Frobenius G2, w-NAF windows 2..5, table-based, WnafScalar-based, double-and-add (restrict and not), generic multiply, 128/512-bit overloads, "
         "C entry points; affine and projective base) on 3 back ends, compared with plain affine double-and-add in Python; the recoding "
         "(sum d_i 2^i = k, odd digits inside the table, wnaf_size <= bits+1, no write outside the digit buffer) and the base-|x| decomposition "
-        "(sum c_i |x|^i = k mod r) are checked as functions. distinct by construction; non-trivial = k > 1 and base not the identity")
+        "(sum c_i |x|^i = k mod r) are checked as functions; engine S: the unchanged wnaf.hpp instantiated on 8-bit words is run on ALL scalars of 16 bits "
+        "(windows 2..5) and 24 bits (window 4; all windows in the thorough tier): digits recombine exactly, are odd / inside the table / non-adjacent, and "
+        "wnaf_multiply over an integer toy group equals scalar * base. distinct by construction; non-trivial = k > 1 and base not the identity")
 ASSUMPTIONS = ["vlib/ref.py double-and-add on affine coordinates is the ground truth",
                "routines that use the order-r eigenvalue (G1::multiply 256-bit, G2::multiply 256-bit, multiply_frobenius) are only required on subgroup points"]
 CONFIGS = ["asm", "c64", "c32"]
@@ -165,6 +167,9 @@ def shards(ctx):
     for w in WIDTHS:
         out.append({"sub": "recode", "w": w})
     out.append({"sub": "decompose"})
+    # engine S: wnaf.hpp itself, instantiated with 16- and 24-bit scalars on 8-bit words, ALL scalars
+    for k in range(8):
+        out.append({"sub": "w8wnaf", "part": k, "parts": 8})
     # heavier shards first
     out.sort(key=lambda s: -s.get("w", 0))
     return out
@@ -181,8 +186,32 @@ def scalar_set(ctx, w, label):
     return alpha.dedup(S)
 
 
+def w8_exe():
+    return build.build_exe("c32", "w8", ["w8.cpp"], extra_flags=["-O2", "-U__SIZEOF_INT128__", "-DDISABLE_ASM"], link_lib=False)
+
+
+def run_w8wnaf(ctx, part, parts):
+    import json
+    import subprocess
+    p = subprocess.run([w8_exe(), "wnaf-quick" if ctx.tier == "quick" else "wnaf-thorough", str(part), str(parts)], stdout=subprocess.PIPE, stderr=subprocess.PIPE, text=True)
+    if p.returncode not in (0, 1):
+        raise RuntimeError("w8 harness crashed: rc=%d %s" % (p.returncode, p.stderr[-2000:]))
+    for line in p.stdout.splitlines():
+        if line.startswith("STAT "):
+            d = json.loads(line[5:])
+            ctx.ok(True, "w8:" + d["op"], n=d["n"])
+            ctx.extra["w8_wnaf_scalars"] += d["n"]
+        elif line.startswith("FAIL "):
+            d = json.loads(line[5:])
+            what = "digits do not recombine / leave the digit set" if d["p"] == 0 else "wnaf_multiply over the integer toy group != scalar * base"
+            ctx.fail({"sub": "w8wnaf", "args": d}, "wnaf.hpp with %s, scalar %d (all scalars of that width enumerated on 8-bit words): %s" % (d["op"], d["a"] | (d["b"] << 32), what), sig="w8:" + d["op"])
+    ctx.sample({"sub": "w8wnaf", "note": "WnafScalar<16|24, 2..5>::from_bigint and wnaf_multiply for ALL scalars (8-bit-word instantiation of the unchanged header)"}, limit=1)
+
+
 def run_shard(ctx, shard):
     sub = shard["sub"]
+    if sub == "w8wnaf":
+        return run_w8wnaf(ctx, shard["part"], shard["parts"])
     if sub == "recode":
         w = shard["w"]
         for k in alpha.scalars(w, ctx.seed, "thorough"):
@@ -234,11 +263,16 @@ def run_shard(ctx, shard):
 
 
 def replay(ctx, case):
+    if case.get("sub") == "w8wnaf":
+        import subprocess
+        d = case["args"]
+        p = subprocess.run([w8_exe(), "one", d["op"], str(d["p"]), str(d["a"]), str(d.get("b", 0))], stdout=subprocess.PIPE, text=True)
+        return [l for l in p.stdout.splitlines() if l.startswith("FAIL ")]
     return eval_case(case)
 
 
 def finish(merged, cov):
-    for need in ("mul:g1:256:G", "mul:g2:256:G", "mul:g1:128:N", "mul:g2:512:N", "recode:256:4", "recode:64:2", "decompose"):
+    for need in ("mul:g1:256:G", "mul:g2:256:G", "mul:g1:128:N", "mul:g2:512:N", "recode:256:4", "recode:64:2", "decompose", "w8:wnaf_16_4", "w8:wnaf_24_4"):
         if not merged.outcomes.get(need):
             return "outcome class %s never exercised" % need
     cov["traces_validated_against_impl"] = merged.evaluations
